@@ -163,7 +163,13 @@ def run(ctx: Context) -> None:
         ok = len(stores) == 1
         if ok:
             v = stores[0].value
-            vals = {m: peval(v, {"max_connections": m, "sys.maxsize": 10**9}) for m in (None, 1, 7)}
+            from ..norm import run_to as _run_to
+
+            def _val(m):
+                env_ = {"max_connections": m, "sys.maxsize": 10**9}
+                _run_to(init.node.body, stores[0], env_)      # locals that carry the limit to the store
+                return peval(v, env_)
+            vals = {m: _val(m) for m in (None, 1, 7)}
             ok = vals == {None: 10**9, 1: 1, 7: 7}
         rep.ob("C04.R5", fkey(tree, init, "self._max_connections"), ok, where(init, stores[0] if stores else None),
                f"`self._max_connections` <- {[ast.unparse(s.value) for s in stores]}")
